@@ -127,11 +127,11 @@ def run(tier, seed):
     n_c, o_c, e_c = _scan(c, s_c["files"], "RUN:cases", True)
     n_m, o_m, e_m = _scan(c, s_m["files"], "RUN:mutate", False)
     if s_h["honest"] == 0 or o_h["ok"] == 0:
-        raise vlib.ToolError("vacuity: no honest round trip was exercised")
+        c.defer("vacuity: no honest round trip was exercised")
     if o_c["ok"] == 0 or o_c["err"] == 0 or o_m["ok"] == 0 or o_m["err"] == 0:
-        raise vlib.ToolError("vacuity: ok / err outcomes not both reached")
+        c.defer("vacuity: ok / err outcomes not both reached")
     if any(v == 0 for v in s_m.get("mutations", {}).values()) or len(s_m.get("mutations", {})) < 25:
-        raise vlib.ToolError("vacuity: a mutation class produced no input")
+        c.defer("vacuity: a mutation class produced no input")
     all_entries = set(e_h) | set(e_c) | set(e_m)
     c.cov["entry_points_fed"] = len(all_entries)
     c.cov["evaluations"] = n_h + n_c + n_m
